@@ -186,8 +186,8 @@ var c25Progs = [][]byte{
 		0xe0, 0x40, // LDH (40),A   LCD off
 		0x21, 0x00, 0x80, // LD HL,8000
 		0x3e, 0x3c, // LD A,3C
-		0x22,       // LD (HL+),A
-		0x22,       // LD (HL+),A
+		0x22,             // LD (HL+),A
+		0x22,             // LD (HL+),A
 		0xea, 0x00, 0xfe, // LD (FE00),A
 		0x3e, 0x1b, // LD A,1B
 		0xe0, 0x47, // LDH (47),A   BGP
@@ -205,9 +205,37 @@ var c25Progs = [][]byte{
 		0xea, 0x11, 0xc0, // LD (C011),A
 		0x18, 0xf4, // JR back to LDH A,(44)
 	}}),
+	// P10 executes across the end of echo RAM into object memory with the LCD on: JP FDFF, where FDFF (echo of
+	// DDFF) holds C3 and the operand is OAM[0..1] = 0200; 0200 jumps back. The operand fetches are OAM reads at
+	// every phase of the line (8-cycle loop against 114-cycle lines), so the OAM-bug emulation's state is exercised.
+	machine.Program(map[uint16][]byte{0x100: {
+		0xaf,       // XOR A
+		0xe0, 0x40, // LDH (40),A   LCD off
+		0x21, 0x00, 0xfe, // LD HL,FE00
+		0x3e, 0x00, // LD A,00
+		0x22,       // LD (HL+),A
+		0x3e, 0x02, // LD A,02
+		0x22,       // LD (HL+),A
+		0x7d,       // LD A,L       fill the rest of OAM with its own low address byte
+		0x22,       // LD (HL+),A
+		0xfe, 0x9f, // CP 9F
+		0x20, 0xfa, // JR NZ,-6
+		0x3e, 0xc3, // LD A,C3
+		0xea, 0xff, 0xdd, // LD (DDFF),A
+		0x3e, 0x93, // LD A,93
+		0xe0, 0x40, // LDH (40),A   LCD on
+		0xc3, 0xff, 0xfd, // JP FDFF
+	}, 0x200: {
+		0x04,             // INC B
+		0xc3, 0xff, 0xfd, // JP FDFF
+	}}),
 }
 
 type c25Case struct {
+	// Cfg: per instance, the emulator's debug options (Config.DebugCPU = bit 0, Config.DebugLCD = bit 1); nil = none.
+	// An instance is compared with a solo run built with the same options; an instance built without the
+	// CPU trace must not write to the process's standard output whatever other instances exist.
+	Cfg      []int `json:"cfg,omitempty"`
 	Progs    []int `json:"progs"`    // program index per instance
 	Unit     int   `json:"unit"`     // machine cycles per step
 	Schedule []int `json:"schedule"` // instance index per step
@@ -216,15 +244,39 @@ type c25Case struct {
 
 type c25Env struct {
 	solo map[string][]uint64 // prog/unit -> digest after k steps
+	out  *os.File            // the process's standard output while the part runs (nil: not captured)
 }
 
-func (e *c25Env) soloDigests(prog, unit, n int) []uint64 {
-	k := fmt.Sprintf("%d/%d/%d", prog, unit, n)
+// outSize: bytes written to standard output so far in this case.
+func (e *c25Env) outSize() int64 {
+	if e.out == nil {
+		return 0
+	}
+	st, err := e.out.Stat()
+	if err != nil {
+		return 0
+	}
+	return st.Size()
+}
+
+func c25Opts(cfg int) machine.Opts {
+	return machine.Opts{DebugCPU: cfg&1 != 0, DebugLCD: cfg&2 != 0}
+}
+
+func (c c25Case) cfg(i int) int {
+	if i < len(c.Cfg) {
+		return c.Cfg[i]
+	}
+	return 0
+}
+
+func (e *c25Env) soloDigests(prog, cfg, unit, n int) []uint64 {
+	k := fmt.Sprintf("%d/%d/%d/%d", prog, cfg, unit, n)
 	if d, ok := e.solo[k]; ok {
 		return d
 	}
 	// the solo run is taken in a process state where this is the only live instance being stepped
-	m := machine.New(c25Progs[prog], machine.Opts{})
+	m := machine.New(c25Progs[prog], c25Opts(cfg))
 	ds := []uint64{m.Digest(false)}
 	for i := 0; i < n; i++ {
 		for c := 0; c < unit; c++ {
@@ -245,24 +297,38 @@ func c25Check(l *explore.Local, e *c25Env, c c25Case) *explore.Fail {
 	}
 	solo := make([][]uint64, n)
 	for i := range solo {
-		solo[i] = e.soloDigests(c.Progs[i], c.Unit, per[i])
+		solo[i] = e.soloDigests(c.Progs[i], c.cfg(i), c.Unit, per[i])
+	}
+	if e.out != nil {
+		e.out.Truncate(0)
+		e.out.Seek(0, 0)
 	}
 	ms := make([]*machine.M, n)
 	if c.Create != 1 {
 		for i := range ms {
-			ms[i] = machine.New(c25Progs[c.Progs[i]], machine.Opts{})
+			ms[i] = machine.New(c25Progs[c.Progs[i]], c25Opts(c.cfg(i)))
 		}
 	}
 	done := make([]int, n)
 	for si, i := range c.Schedule {
 		if ms[i] == nil {
-			ms[i] = machine.New(c25Progs[c.Progs[i]], machine.Opts{})
+			ms[i] = machine.New(c25Progs[c.Progs[i]], c25Opts(c.cfg(i)))
 		}
 		if c.Create == 2 && si == len(c.Schedule)/2 {
-			_ = machine.New(c25Progs[(c.Progs[0]+1)%len(c25Progs)], machine.Opts{}) // created mid-run, never stepped
+			// created mid-run, never stepped; when configurations are mixed it is built with every debug option
+			extra := 0
+			if len(c.Cfg) > 0 {
+				extra = 3
+			}
+			_ = machine.New(c25Progs[(c.Progs[0]+1)%len(c25Progs)], c25Opts(extra))
 		}
+		before := e.outSize()
 		for k := 0; k < c.Unit; k++ {
 			ms[i].Cycle()
+		}
+		if c.cfg(i)&1 == 0 && e.outSize() != before {
+			return explore.Failf("instance-without-the-trace-option-writes-to-stdout", "schedule step %d: instance %d (program %d, built without DebugCPU) wrote %d bytes to standard output while other instances with options %v exist",
+				si, i, c.Progs[i], e.outSize()-before, c.Cfg)
 		}
 		done[i]++
 		l.Trans(1)
@@ -426,6 +492,34 @@ func init() {
 					}
 				}
 			}
+			// mixed configurations: instances built with different debug options next to each other
+			for _, mc := range []struct{ ps, cfg []int }{{[]int{1, 2}, []int{0, 1}}, {[]int{2, 1}, []int{1, 0}}, {[]int{9, 9}, []int{0, 2}}, {[]int{9, 2}, []int{2, 1}}, {[]int{10, 0}, []int{0, 3}}} {
+				for _, u := range units {
+					for cr := 0; cr < 3; cr++ {
+						ok := true
+						interleavings(2, shapes[0].k, func(s []int) bool {
+							ok = yield(c25Case{Progs: mc.ps, Cfg: mc.cfg, Unit: u, Schedule: s, Create: cr})
+							return ok
+						})
+						if !ok {
+							return
+						}
+					}
+				}
+			}
+			// the same at frame-sized steps (2 instances x 2 frames); P10 needs a frame to reach the LCD-on loop
+			for _, mc := range []struct{ ps, cfg []int }{{[]int{10, 0}, []int{0, 1}}, {[]int{10, 10}, []int{0, 3}}, {[]int{9, 10}, []int{2, 0}}, {[]int{10, 9}, nil}} {
+				for cr := 0; cr < 3; cr++ {
+					ok := true
+					interleavings(2, 2, func(s []int) bool {
+						ok = yield(c25Case{Progs: mc.ps, Cfg: mc.cfg, Unit: 17556, Schedule: s, Create: cr})
+						return ok
+					})
+					if !ok {
+						return
+					}
+				}
+			}
 			// frame-sized steps: 2 instances x 3 frames, 3 x 2
 			for _, sh := range []shape{{2, 3}, {3, 2}, {2, 4}} {
 				ps := []int{2, 1, 0}[:min(sh.n, 3)]
@@ -444,10 +538,18 @@ func init() {
 				}
 			}
 		}
+		// the CPU trace of instances built with DebugCPU goes to os.Stdout: capture it in a scratch file for the part
+		var capture *os.File
+		oldStdout := os.Stdout
+		if f, err := os.CreateTemp(c.Scratch, "c25-stdout-*"); err == nil {
+			capture, os.Stdout = f, f
+			defer func() { os.Stdout = oldStdout; f.Close(); os.Remove(f.Name()) }()
+		}
 		explore.Product(c.R, "interleavings", explore.PartOpt{Workers: 1, Guard: true,
 			Bound:  fmt.Sprintf("all interleavings of shapes %v (instances x steps), units %v cycles + frame steps 2x3, 3x2; 3 creation orders", shapes, units),
-			Domain: "10 guest programs (ALU/CB/branches; stores/stack/CALL; timer interrupt + HALT; cartridge RAM writer on MBC1 with 4 banks; cartridge RAM read-before-write on MBC1 with 1 bank, on MBC2 and on MBC5; two sound programs that power-cycle the APU and run different channel-1 sweeps; video + OAM DMA + serial + joypad select)"},
-			gen, func() *c25Env { return &c25Env{solo: map[string][]uint64{}} }, c25Check)
+			Domain: "instances built with and without the debug options (CPU trace, debug LCD geometry) side by side; 11 guest programs (execution across echo RAM into object memory with the LCD on; ALU/CB/branches; stores/stack/CALL; timer interrupt + HALT; cartridge RAM writer on MBC1 with 4 banks; cartridge RAM read-before-write on MBC1 with 1 bank, on MBC2 and on MBC5; two sound programs that power-cycle the APU and run different channel-1 sweeps; video + OAM DMA + serial + joypad select)"},
+			gen, func() *c25Env { return &c25Env{solo: map[string][]uint64{}, out: capture} }, c25Check)
+		os.Stdout = oldStdout
 		c25RacePass(c)
 	})
 }
